@@ -319,7 +319,10 @@ def make_binary(values):
 
 OPT_VALUES = [1, 1.0005, 1.05, 1.2, 'a', 'A', 'a!', 'Hello, World', 'hello world', ['a', 1.05], ['A', 1], {'Apple'}, {'apple'},
               {'k': 'A'}, {'k': 'a'}, ('a!', 1.0005), ('a', 1), [{'Apple'}], [{'apple'}], {1.05}, {1}]
-OPTIONS = [dict(exact_strings=True), dict(delta=0.1), dict(delta=1e-9), dict(exact_strings=True, delta=0.1), dict()]
+OPTIONS = [dict(exact_strings=True), dict(delta=0.1), dict(delta=1e-9), dict(exact_strings=True, delta=0.1), dict(),
+           # options that only concern the wording of the feedback: the verdict must not depend on them
+           dict(explanation='because'), dict(context=False), dict(assertion='custom wording'),
+           dict(explanation='because', exact_strings=True)]
 
 
 def body_options(ctx):
@@ -424,23 +427,29 @@ def body_regex(ctx):
     rx = REGEXES[ctx.choose(len(REGEXES), 'regex')]
     tx = TEXTS[ctx.choose(len(TEXTS), 'text')]
     w = bool(ctx.choose(2, 'text-proxied'))
+    wp = bool(ctx.choose(2, 'pattern-proxied'))
+    expl = bool(ctx.choose(2, 'with-explanation'))
     _trim()
     key = ('text', tx)
     if w and key not in TYPE_P:
         TYPE_P[key] = sb_cmds.call('identity', tx)
     o = TYPE_P[key] if w else tx
-    case = {'assertion': name, 'regex': rx, 'text': tx, 'proxied': w}
-    ctx.observe(repr((name, rx, tx, w)))
+    pkey = ('pattern', rx)
+    if wp and pkey not in TYPE_P:
+        TYPE_P[pkey] = sb_cmds.call('identity', rx)
+    case = {'assertion': name, 'regex': rx, 'text': tx, 'proxied': w, 'pattern_proxied': wp, 'explanation': expl}
+    ctx.observe(repr((name, rx, tx, w, wp, expl)))
     ctx.set_sample(case)
-    ctx.mark_nontrivial(repr((name, rx, tx, w)))
+    ctx.mark_nontrivial(repr((name, rx, tx, w, wp, expl)))
     h, ev = holds(lambda: re.search(rx, tx) is not None)
     if name == 'assert_not_regex':
         h = ev and not h
     ctx.step(name)
-    fb, exc = _call(name, rx, o)
+    rxo = TYPE_P[pkey] if wp else rx
+    fb, exc = _call(name, rxo, o, **({'explanation': 'because'} if expl else {}))
     got = _judge(ctx, name, fb, exc, h, case, ev, False)
     if ev and got is not None and name == 'assert_regex':
-        fb2, exc2 = _call('assert_not_regex', rx, o)
+        fb2, exc2 = _call('assert_not_regex', rxo, o)
         if exc2 is None and silent(fb2) == got:
             ctx.fail({'symptom': 'assertion and its negation both ' + ('pass' if got else 'fail'), 'assertion': name}, case=case)
 
